@@ -12,9 +12,11 @@ import vf
 
 NAMES = [["n1"], ["n2"], ["n3", "CO", "SP", "b"]]      # SidebandMC!KnownNames
 LONG = 5000
-BYTES = {"NL": "\n", "SP": " ", "CR": "\r", "CO": ":", "LONG": "X" * LONG}
-TOKEN = re.compile(r"X{%d}|\n| |\r|:|[a-z0-9]+|[\s\S]" % LONG)
-UNTOK = {"\n": "NL", " ": "SP", "\r": "CR", ":": "CO", "X" * LONG: "LONG"}
+# (the opaque run "a" is rendered with percent signs in it: text is text, not a format)
+PCT = "a%d100%s%"
+BYTES = {"NL": "\n", "SP": " ", "CR": "\r", "CO": ":", "LONG": "X" * LONG, "a": PCT}
+TOKEN = re.compile(r"X{%d}|%s|\n| |\r|:|[a-z0-9]+|[\s\S]" % (LONG, re.escape(PCT)))
+UNTOK = {"\n": "NL", " ": "SP", "\r": "CR", ":": "CO", "X" * LONG: "LONG", PCT: "a"}
 
 
 def _b(toks):
